@@ -404,9 +404,15 @@ class SlowSource:
 
 
 async def _run_conc_case(case):
-    init, reqs, order = case
+    init, reqs, order = case[:3]
+    big = case[3] if len(case) > 3 else 0           # lengths x 150: extensions of thousands
+    reorg = case[4] if len(case) > 4 else None      # [after that many completions, cut choice]
+    scale = 150 if big else 1
+    if big:
+        init, reqs = init * scale, [[a * scale + a % 7, b * scale] for a, b in reqs]
     merkle = Merkle()
-    n = 1 + max([init % 64] + [a % 64 for a, _ in reqs]) + 1
+    span = 64 * scale
+    n = 1 + max([init % span] + [a % span for a, _ in reqs]) + 1
     items = [leaf(i, 0) for i in range(n)]
     src = SlowSource(items)
     cache = MerkleCache(merkle, src.func)
@@ -423,11 +429,25 @@ async def _run_conc_case(case):
         queries.append((length, b % length))
     tasks = [asyncio.ensure_future(cache.branch_and_root(length, index))
              for length, index in queries]
-    info = {'overlap': False, 'extend_reads_in_flight_max': 0}
+    info = {'overlap': False, 'extend_reads_in_flight_max': 0, 'reorg_in_flight': False}
     k = 0
-    for _ in range(400):
-        for _ in range(4):
-            await asyncio.sleep(0)
+    since = 0       # loop turns since the last read was completed
+    old_items = None
+    for _ in range(2500):
+        since += 1
+        if reorg is not None and old_items is None and k >= reorg[0] and \
+                since > (reorg[2] if len(reorg) > 2 else 0) and \
+                not all(t.done() for t in tasks):
+            # a reorganisation while requests are in flight: the source changes from `cut` on and
+            # the owner truncates the cache (DB.backup_fs)
+            cut = 1 + reorg[1] % (n - 1)
+            old_items = list(items)
+            items[cut:] = [leaf(i, 5) for i in range(cut, n)]
+            cache.truncate(cut)
+            info['reorg_in_flight'] = True
+        # (one loop turn at a time, so that a reorganisation can also land between two turns of
+        # an implementation that yields while it computes)
+        await asyncio.sleep(0)
         if all(t.done() for t in tasks):
             break
         live = [p for p in src.pending if not p[0].done()]
@@ -439,6 +459,7 @@ async def _run_conc_case(case):
             info['overlap'] = True
         fut, _, _ = live[order[k % len(order)] % len(live)]
         k += 1
+        since = 0
         fut.set_result(None)
     for (length, index), t in zip(queries, tasks):
         if not t.done():
@@ -450,11 +471,39 @@ async def _run_conc_case(case):
         branch, root = t.result()
         levels = ref_levels(items[:length])
         classic, _ = ref_branch(levels, index)
+        if old_items is not None and (root != levels[-1][0] or branch != classic):
+            # in flight across the reorganisation: the source as it was is acceptable too
+            levels = ref_levels(old_items[:length])
+            classic, _ = ref_branch(levels, index)
         if root != levels[-1][0] or branch != classic:
             return (f'with requests {queries} in flight together (cache initialised to '
                     f'{1 + init % (n - 1)}), branch_and_root({length},{index}) returned a '
                     f'{"root" if root != levels[-1][0] else "branch"} that differs from the '
                     f'from-scratch computation'), info
+    if old_items is not None:
+        # afterwards the cache must serve the source as it is now
+        for length, index in queries + [(n, n - 1), (max(1, n // 2), 0)]:
+            t = asyncio.ensure_future(cache.branch_and_root(length, index))
+            for _ in range(2000):
+                await asyncio.sleep(0)
+                for fut, _, _ in src.pending:
+                    if not fut.done():
+                        fut.set_result(None)
+                src.pending = [p for p in src.pending if not p[0].done()]
+                if t.done():
+                    break
+            levels = ref_levels(items[:length])
+            classic, _ = ref_branch(levels, index)
+            if not t.done():
+                t.cancel()
+                return f'after the reorganisation branch_and_root({length},{index}) hangs', info
+            if t.exception() is not None or t.result()[1] != levels[-1][0] or \
+                    t.result()[0] != classic:
+                return (f'after a reorganisation (cut at {1 + reorg[1] % (n - 1)}) that arrived '
+                        f'while requests {queries} were in flight, branch_and_root({length},'
+                        f'{index}) '
+                        + (f'raised {t.exception()!r}' if t.exception() is not None else
+                           'differs from the from-scratch computation')), info
     return None, info
 
 
@@ -469,7 +518,10 @@ def run_conc_case(case):
 CONC_CASE = st.tuples(
     st.integers(0, 63),
     st.lists(st.tuples(st.integers(0, 63), st.integers(0, 63)).map(list), min_size=2, max_size=4),
-    st.lists(st.integers(0, 3), min_size=1, max_size=12)).map(list)
+    st.lists(st.integers(0, 3), min_size=1, max_size=12),
+    st.sampled_from([0, 0, 0, 1]),
+    st.none() | st.tuples(st.integers(0, 4), st.integers(0, 10 ** 4),
+                          st.integers(0, 4)).map(list)).map(list)
 
 
 def conc_body(ctx):
@@ -477,7 +529,9 @@ def conc_body(ctx):
         msg, info = run_conc_case(case)
         ctx.record(case=case, nontrivial=info['overlap'],
                    classes=['concurrent.case'] + (['concurrent.reads_overlap'] if info['overlap']
-                                                  else []),
+                                                  else [])
+                   + (['concurrent.reorg_in_flight'] if info['reorg_in_flight'] else [])
+                   + (['concurrent.big'] if len(case) > 3 and case[3] else []),
                    sample={'check': 'c12.concurrent', 'case': case})
         if msg:
             raise Violation(msg, 'concurrent')
